@@ -519,6 +519,18 @@ func harnessMain(args []string) int {
 			say("  (%d candidates of %s)", n, k)
 		}
 	}
+	for label, vals := range hr.Records {
+		if len(vals) > 1 {
+			say("RECORD-DISAGREEMENT %s: %d different values", label, len(vals))
+			n := 0
+			for v := range vals {
+				if n < 3 {
+					say("   %s", firstLine(v))
+				}
+				n++
+			}
+		}
+	}
 	for _, s := range hr.Samples {
 		say("SAMPLE %v -> %s input[%s] obs=%v", s.Prefix, s.Outcome, describeInputs(s.Witness), s.Obs)
 	}
